@@ -434,6 +434,40 @@ def const_str(t):
         init = _m.CURRENT.const_init(t[1]) if _m.CURRENT is not None else None
         if init is not None and init[0] == "const" and init[1] == "str":
             return init[2]
+    if t[0] == "call" and t[1] in ("std::fmt::format", "alloc::fmt::format") and t[2] and t[2][0][0] == "call" and t[2][0][1].endswith("fmt::Arguments::new") and len(t[2][0][2]) == 2:
+        # format!("lit{}lit", <string constants>): the template bytes as the compiler lowered them (a run of literal
+        # bytes is prefixed by its length, 0xC0 is the next argument, 0 ends the template) with every argument a
+        # string constant shown with Display
+        tmpl, arr = t[2][0][2]
+        try:
+            import json as _j
+            bs = _j.loads(_j.loads(tmpl[2])["bytes"]) if tmpl[0] == "const" else None
+        except Exception:
+            bs = None
+        args = list(arr[1]) if arr[0] == "array" else None
+        if bs is None or args is None:
+            return None
+        out, i, ai = "", 0, 0
+        while i < len(bs):
+            b_ = bs[i]
+            if b_ == 0:
+                break
+            if b_ < 0x80:
+                out += bytes(bs[i + 1:i + 1 + b_]).decode("utf-8", "replace")
+                i += 1 + b_
+            elif b_ == 0xC0 and ai < len(args):
+                a_ = args[ai]
+                ai += 1
+                if not (a_[0] == "call" and a_[1].endswith("Argument::new_display") and a_[2]):
+                    return None
+                v_ = const_str(a_[2][0])
+                if v_ is None:
+                    return None
+                out += v_
+                i += 1
+            else:
+                return None
+        return out
     return None
 
 
